@@ -853,3 +853,53 @@ markClass a <anchor 150 -10> @top;
         "mark_class_in_glyph_class",
     );
 }
+
+// `sub x [a b]' by z; sub y [c b]' by w;`: the second rule must not reuse (and overwrite)
+// the first rule's anonymous lookup, in which b already maps to z.
+#[test]
+fn class_to_glyph_contextual_rules_do_not_share_conflicting_anon_lookup() {
+    use write_fonts::tables::gsub::{SingleSubst, SubstitutionLookup};
+
+    let compilation = compile_fea(
+        "\
+languagesystem DFLT dflt;
+feature test {
+    sub x [a b]' by z;
+    sub y [c b]' by w;
+} test;
+",
+        "class_to_glyph_contextual_anon_lookups",
+    );
+    let gsub = compilation.gsub.unwrap();
+    let glyph_order_path = Path::new(ROOT_TEST_DIR)
+        .join("mini-latin")
+        .join(GLYPH_ORDER);
+    let glyph_order = std::fs::read_to_string(glyph_order_path).unwrap();
+    let gid = |name: &str| glyph_order.lines().position(|l| l == name).unwrap() as u16;
+    // every single-substitution lookup's mapping for 'b'
+    let mut b_maps_to = Vec::new();
+    for lookup in gsub.lookup_list.lookups.iter() {
+        if let SubstitutionLookup::Single(lookup) = lookup.as_ref() {
+            for subtable in lookup.subtables.iter() {
+                let pairs: Vec<(u16, u16)> = match subtable.as_ref() {
+                    SingleSubst::Format1(t) => t
+                        .coverage
+                        .iter()
+                        .map(|g| (g.to_u16(), (g.to_u16() as i32 + t.delta_glyph_id as i32) as u16))
+                        .collect(),
+                    SingleSubst::Format2(t) => t
+                        .coverage
+                        .iter()
+                        .map(|g| g.to_u16())
+                        .zip(t.substitute_glyph_ids.iter().map(|g| g.to_u16()))
+                        .collect(),
+                };
+                b_maps_to.extend(pairs.iter().filter(|(from, _)| *from == gid("b")).map(|(_, to)| *to));
+            }
+        }
+    }
+    b_maps_to.sort();
+    let mut expected = vec![gid("z"), gid("w")];
+    expected.sort();
+    assert_eq!(b_maps_to, expected);
+}
